@@ -27,7 +27,7 @@ def confirm(wt, mut):
     results = re.findall(r"test result: (\w+)\. (\d+) passed; (\d+) failed", out)
     res["with_patch"] = results
     unit_ok = any(r[0] == "ok" and r[1] == "81" for r in results)
-    demo_failed = any(r[0] == "FAILED" for r in results) and "demo" in out
+    demo_failed = (any(r[0] == "FAILED" for r in results) and "demo" in out) or re.search(r"error: test failed, to rerun pass `--test demo`", out) is not None
     compiled = "error: could not compile" not in out
     sh("git checkout -- src", cwd=wt)
     rc2, out2 = sh("cargo test --offline --test demo 2>&1", cwd=wt)
